@@ -28,6 +28,15 @@ TABLE = {
  'C18': (MC, 'TLC-evaluated verdict table (spec/OpenCheck.tla) replayed on materialised directories',
          'TLC enumerates every single-field corruption class x file-length offset x array kind and evaluates the spec verdict (Raises/Opens/Any); each row is materialised with several concrete representatives (rotating over the 13 types and both byte orders) and opened with Array(), Array(r+), darr.open(), RaggedArray(); rejected rows are also passed to delete/truncate by path with a byte snapshot around the call.',
          'Only "Raises" verdicts are enforced; ambiguities listed in DESIGN section 9 are verdict Any.', '7 C18'),
+ 'C04': (MC, 'TLC graph walk + path replay (spec/Ragged.tla, spec/RaggedObs.tla)',
+         'The TLC state graph of the step-level ragged model is replayed into darr.RaggedArray (create_raggedarray / asraggedarray starts, append, iterappend, truncate_raggedarray, mode, reopen): every macro-edge, plus random paths; after each call len/narrays/atom/dtype/size, every subarray, ra[k] for every k around the valid range (IndexError/TypeError classes), iter_arrays over TLC-evaluated (start,end,step) cases, and the stored index type are compared on the live and a fresh handle. Configurations rotate over 13 value types x 2 byte orders x 5 atom shapes x 7 index types x item forms.',
+         'Trusted: TLC, parser, NumPy as reference for np.asarray(item, dtype). Bounds in evidence.', '7 C04'),
+ 'C05': (MC, 'TLC graph walk (spec/Ragged.tla WellFormedRagged) + independent decoder',
+         'Same walk as C04 but the observables are the files: values/ and indices/ decoded without Darr (json + struct), index contiguity (first start 0, start<=end, start=previous end, last end=N), integer index type, top-level len/size/atom/numtype/darrobject, and subarray k re-derived as values[start_k:end_k] from the raw files must equal the spec state.',
+         'Trusted: as C04.', '7 C05'),
+ 'C10': (MC, 'TLC graph walk with real faults (spec/Ragged.tla, Faults, IdxMax)',
+         'TLC checks FailedAppendExact/WellFormedRagged with fault plans (iterable raises, wrong atom, wrong rank, unconvertible item at every position; values write stops after k rows + b bytes; index write refused after 0 or half a row) and with index overflow decided by the state (IdxMax). Each fault macro-edge is executed on the real code: crafted iterables, RLIMIT_FSIZE armed right before the failing item and lifted by the SIGXFSZ handler, int8/uint8 index types with blocks of 40/80 rows so that the model bound is the type bound.',
+         'Index-file write faults can only be isolated when the values file is shorter than the index file (others are counted as skipped). Quick tier samples macro-edges per edge class when the graph is large.', '7 C10'),
 }
 NA = {}
 def main():
